@@ -22,7 +22,7 @@ ASSUME = [
 ]
 
 
-def run_check(prop, props_file, pins, mixes, tier, seed, extra_assume=(), explanation=None):
+def run_check(prop, props_file, pins, mixes, tier, seed, extra_assume=(), explanation=None, extra=None):
     o = Outcome(prop, tier, seed)
     o.assumptions = list(core.TRUSTED_BASE_COMMON) + ASSUME + list(extra_assume)
     if props_file and os.path.exists(os.path.join(core.COQ, props_file)):
@@ -33,6 +33,8 @@ def run_check(prop, props_file, pins, mixes, tier, seed, extra_assume=(), explan
     if explanation:
         o.coverage["explanation"] = explanation
     broker.correspondence(o, prop, tier, seed, mixes, SIZES)
+    if extra:
+        extra(o, tier, seed)
     if o.broken and not o.violations and tier == "quick":
         o.coverage["search_note"] = "correspondence re-run on a 10x larger sample after an obligation broke"
         o2 = Outcome(prop, tier, seed + 7)
